@@ -195,6 +195,7 @@ func (c *Ctx) startResetsFrame(rule string) {
 			reset = true
 		}
 	}
+	c.writerLatchesOnlyBufferErrors(rule)
 	c.R.Check(reset, rule, "Start:abandoned-frame-discarded", c.at(hdr), "a row abandoned half-way (encode failure) leaves no bytes behind: Start empties the frame before the next header", "a Reset call dominates the header write in Writer.Start", "no frame reset dominates the header write in Start: the bytes of a rejected row are sent in front of the next message")
 }
 
@@ -312,6 +313,9 @@ func (c *Ctx) c05Writer() {
 						if rc := core.StaticCallee(call); rc != nil && reach[rc] {
 							continue // the outcome of the emitting operation itself
 						}
+						if writerMethod(call) == "End" {
+							continue // the frame written right here: the outcome of the emission
+						}
 						if rc := core.StaticCallee(call); rc != nil && rc.Signature.Recv() != nil && core.NamedOf(rc.Signature.Recv().Type()) == dw {
 							continue // the outcome of another writer method, whose own returns are subject to this rule
 						}
@@ -415,8 +419,24 @@ func (c *Ctx) c05Writer() {
 
 	// Complete: single emission site, closes on every path that may have emitted
 	if complete := c.mustMethod("C05.R3", "wire", "dataWriter", "Complete"); complete != nil {
-		cc := c.P.Func("wire", "commandComplete")
-		sites := callsIn(complete, calleeIs(cc))
+		// the CommandComplete emission: Start('C') in Complete itself, or the call of a helper of package wire that does it
+		startsC := func(fn *ssa.Function) []ssa.CallInstruction {
+			var out []ssa.CallInstruction
+			for _, ci := range core.Calls(fn) {
+				if writerMethod(ci) == "Start" {
+					if k, ok := core.ConstInt(ci.Common().Args[1]); ok && k == 'C' {
+						out = append(out, ci)
+					}
+				}
+			}
+			return out
+		}
+		sites := startsC(complete)
+		for _, ci := range core.Calls(complete) {
+			if h := core.StaticCallee(ci); h != nil && c.P.InPkg(h, "wire") && h.Blocks != nil && len(startsC(h)) > 0 {
+				sites = append(sites, ci)
+			}
+		}
 		loops := core.Loops(complete)
 		inLoop := false
 		for _, s := range sites {
@@ -559,3 +579,48 @@ func (c *Ctx) blockClosesWriter(b *ssa.BasicBlock) bool {
 }
 
 var _ = types.Identical
+
+// writerLatchesOnlyBufferErrors: a frame is dropped by End only when a write into the frame buffer failed. A Writer
+// method that latches an error of its own making (refusing a string for what it contains, say) makes the reply that
+// carries such data - the ErrorResponse of a statement whose message holds a zero byte - vanish: the client receives
+// neither the ErrorResponse nor the ReadyForQuery that follows it.
+func (c *Ctx) writerLatchesOnlyBufferErrors(rule string) {
+	R := c.R
+	n := 0
+	for _, fn := range c.P.ScopeFuncs() {
+		if !c.P.InPkg(fn, "buffer") {
+			continue
+		}
+		for _, b := range fn.Blocks {
+			for _, in := range b.Instrs {
+				st, ok := in.(*ssa.Store)
+				if !ok {
+					continue
+				}
+				fr, ok := core.FieldOfAddr(st.Addr)
+				if !ok || !fr.Is(pkBuffer, "Writer", "err") {
+					continue
+				}
+				n++
+				okSrc := core.IsNilConst(st.Val)
+				v := core.Strip(st.Val)
+				if ex, isEx := v.(*ssa.Extract); isEx {
+					v = ex.Tuple
+				}
+				if call, isCall := v.(*ssa.Call); isCall {
+					if isBytesBufferMethod(call, "Write") || isBytesBufferMethod(call, "WriteString") || isBytesBufferMethod(call, "WriteByte") {
+						okSrc = true
+					}
+					if cc := call.Common(); cc.IsInvoke() && cc.Method.Name() == "Write" {
+						okSrc = true // the connection write in End
+					}
+					if f := core.StaticCallee(call); f != nil && f.Pkg != nil && f.Pkg.Pkg.Path() == "encoding/binary" {
+						okSrc = true
+					}
+				}
+				R.Check(okSrc, rule, fkey(fn)+":latches-only-write-errors", c.at(st), "a frame is abandoned only because a write failed, never because of what the data contains", "Writer.err is assigned nil or the result of a buffer / connection write", "Writer.err is set to an error the writer makes up itself: End then drops the whole frame, so the message that carries the offending data (the ErrorResponse of a failing statement, for instance) is never sent")
+			}
+		}
+	}
+	R.Floor(rule, "assignments of Writer.err", n, 3)
+}
